@@ -53,8 +53,12 @@ def as_v(ev, x):
 
     if isinstance(x, V):
         return x
+    if isinstance(x, ListElem):
+        return App("getitem", (as_v(ev, x.lst), as_v(ev, x.idx)))
     if isinstance(x, Lst):
         items = [as_v(ev, i) for i in x.items]
+        if getattr(x, "elem_appends", None):
+            return App("list_with_appends", [Sym("list#%d" % id(x))])
         if x.pappends:
             comps = [App("forall", (lp, as_v(ev, val))) for lp, val in x.pappends]
             if not items and len(comps) == 1:
@@ -98,6 +102,12 @@ def length(ev, x):
     x = strip_fresh(x)
     while isinstance(x, App) and x.fn in ("sort", "fresh", "asarray", "flip") and x.args:
         x = strip_fresh(x.args[0])
+    if isinstance(x, App) and x.fn in ("zeros", "empty", "ones", "full") and x.args:
+        sh = x.args[0]
+        if isinstance(sh, Tup) and sh.items and not isinstance(sh.items[0], Star):
+            return sh.items[0]
+        if is_const(sh):
+            return sh
     if isinstance(x, App) and x.fn == "ite":
         la, lb = length(ev, x.args[1]), length(ev, x.args[2])
         if same(la, lb):
@@ -386,6 +396,8 @@ def np_call(ev, name, args, kwargs, node):
                     if isinstance(i, App) and i.fn == "concat":
                         flat.extend(i.args)
                     elif isinstance(i, Tup) and not i.items:
+                        continue
+                    elif isinstance(i, App) and i.fn in ("zeros", "empty") and length(ev, i) == Const(0):
                         continue
                     else:
                         flat.append(i)
@@ -701,6 +713,15 @@ METHOD_PURE = {"sum", "std", "mean", "min", "max", "round", "any", "all", "flatt
 def call_method(ev, recv, name, args, kwargs, node):
     from .evalr import Lst, Dct, Obj, storage_root, RaiseSignal
 
+    if isinstance(recv, ListElem):
+        if name == "append":
+            loops = list(getattr(ev, "loop_stack", []))
+            ev.event("elem_append", lst=recv.lst, index=recv.idx, value=args[0], loops=loops, node=node)
+            if not hasattr(recv.lst, "elem_appends"):
+                recv.lst.elem_appends = []
+            recv.lst.elem_appends.append((recv.idx, args[0], [l[0] for l in loops]))
+            return Const(None)
+        return App("m:" + name, (as_v(ev, recv),) + tuple(as_v(ev, a) for a in args))
     if isinstance(recv, Lst):
         if name == "append":
             x = args[0]
